@@ -195,6 +195,7 @@ def search(chk, broken):
         shots, calcs = make_pool(pbc, rng)
         hist = []
         raised_on = None
+        last_j = last_i = 0
         for k in range(10):
             if chk.over():
                 break
@@ -205,9 +206,20 @@ def search(chk, broken):
                 shots[i] = None
                 gc.collect()
                 shots[i] = sg.gen_shot(pbc, rng, flat=True, atmo=shots[(i + 1) % len(shots)].atmo)[0]
+            elif rng.random() < 0.3:
+                # the same rifle and load under other conditions (the weather changes, the user moves on): a NEW atmosphere object on the
+                # same shot — everything a calculator derived from the previous atmosphere must be derived again
+                if k > 0 and shots[last_i] is not None and rng.random() < 0.7:
+                    i = last_i       # the rifle of the previous call
+                shots[i].atmo = (pbc.Vacuum(U.Foot(rng.uniform(0, 3000)), U.Celsius(rng.uniform(-20, 35))) if rng.random() < 0.2 else
+                                 pbc.Atmo(U.Foot(rng.uniform(-500, 9000)), U.hPa(rng.uniform(650, 1060)), U.Celsius(rng.uniform(-35, 45)),
+                                          rng.choice([0, 50, 0.8])))
+                if rng.random() < 0.5 and k > 0:
+                    j = last_j       # ... on the calculator that has just served this rifle
             if raised_on is not None and rng.random() < 0.7:
                 j = raised_on          # what does a calculator do right after one of its calls raised?
             shot, calc = shots[i], calcs[j]
+            last_j, last_i = j, i
             fresh = pbc.Calculator(_config=calc._verif_cfgdict)
             shot2 = copy.deepcopy(shot)
             if rng.random() < 0.6:
